@@ -22,9 +22,15 @@ pub struct Built {
     pub spks: Vec<Script>,
 }
 
+/// a standard output script: p2wpkh, p2wsh, p2tr, p2sh or p2pkh (Transaction::blind goes through the address of the script)
 fn p2wpkh(r: &mut Rng) -> Script {
-    let mut v = vec![0x00, 0x14];
-    v.extend(pools::rbytes(r, 20));
+    let v = match r.next_u32() % 5 {
+        0 => { let mut v = vec![0x00, 0x14]; v.extend(pools::rbytes(r, 20)); v }
+        1 => { let mut v = vec![0x00, 0x20]; v.extend(pools::rbytes(r, 32)); v }
+        2 => { let mut v = vec![0x51, 0x20]; v.extend(pools::rbytes(r, 32)); v }
+        3 => { let mut v = vec![0xa9, 0x14]; v.extend(pools::rbytes(r, 20)); v.push(0x87); v }
+        _ => { let mut v = vec![0x76, 0xa9, 0x14]; v.extend(pools::rbytes(r, 20)); v.extend([0x88, 0xac]); v }
+    };
     Script::from(v)
 }
 
